@@ -56,6 +56,8 @@ class CliWorld(ConnWorld):
         self.reconnect_in_callback: Any = None
         self.epoch = 0  # number of accepted start/connect calls: identifies "the connection a disconnect() was called on"
         self.disc_scope: dict[str, tuple[int, tuple[str, ...]]] = {}
+        self.disc_when_alive: set[str] = set()  # disconnect calls issued while the session was established
+        self.peer_dr_epoch = -1  # the device asked to disconnect during this epoch
 
     def make_on_stop(self, call: str) -> Any:
         """A distinct stop callback per start_connection/connect call (C07 at client level: the callback given at connect time)."""
@@ -73,6 +75,15 @@ class CliWorld(ConnWorld):
                                    f"given to {call} was invoked")
             if call in self.stopped_calls:
                 self.viol07.append(f"C07:client:twice: the stop callback given to {call} was invoked twice")
+            # the argument: a disconnect()/disconnect(force) call made on this established session with no connect phase in flight
+            # takes effect at once - whatever closes the connection afterwards, the end was asked for
+            mine = [(n, infl) for n, (ep, infl) in self.disc_scope.items() if ep == self.epoch]
+            asked = [n for n, infl in mine if not infl and n in self.disc_when_alive]
+            if asked and not expected:
+                self.viol07.append(f"C07:client:reason: the application had called {asked[0].split('#')[0]}() on the established session before it "
+                                   f"closed, but the stop callback was told the end was unexpected")
+            if not mine and self.peer_dr_epoch != self.epoch and expected:
+                self.viol07.append("C07:client:reason: the stop callback was told the end was expected although neither the application nor the device asked for it")
             self.stopped_calls.add(call)
             del was_alive
             if self.reconnect_in_callback is not None:
@@ -220,6 +231,8 @@ class CliHarness:
             w.counter += 1
             name = f"{label}#{w.counter}"
             w.disc_scope[name] = (w.epoch, tuple(w.inflight))
+            if w.alive:
+                w.disc_when_alive.add(name)
             if label == "disc":
                 w.disc_inflight += 1
                 w.spawn(name, lambda: w.client.disconnect())
@@ -261,12 +274,15 @@ class CliHarness:
             w.io_eof(w.live_sock())
         elif label in ("DI", "DI+DR"):
             io = True
+            if label == "DI+DR":
+                w.peer_dr_epoch = w.epoch
             data = w.dframe(mk("DeviceInfoResponse", name="dev", mac_address="AA:BB:CC:DD:EE:FF"))
             if label == "DI+DR":
                 data += w.dframe(mk("DisconnectRequest"))
             w.io_chunk(w.live_sock(), data)
         elif label == "DR":
             io = True
+            w.peer_dr_epoch = w.epoch
             w.io_chunk(w.live_sock(), w.dframe(mk("DisconnectRequest")))
         elif label == "garbage":
             io = True
